@@ -162,7 +162,12 @@ func vfGenEntryName(t *rapid.T, names vfkit.NameSet, bare bool) vfkit.Name {
 	}
 	o := make(vfkit.Name, len(n))
 	for i, l := range n {
-		o[i] = vfSanitizeEntryLabel(l, bare, i == 0, i == len(n)-1)
+		// the first octet of a bare entry is the edge of its line (the loader trims lines); behind a "full:" / "domain:"
+		// prefix it is an octet of the label like any other
+		o[i] = vfSanitizeEntryLabel(l, bare, i == 0 && bare, i == len(n)-1)
+	}
+	if !bare && len(o) > 0 && (len(o) > 1 || len(o[0]) > 1) && rapid.IntRange(0, 7).Draw(t, "whiteSpaceBehindThePrefix") == 0 {
+		o[0][0] = rapid.SampledFrom([]byte{' ', '\t', ' ', 0x0b, 0x0c, 0xa0, 0x85}).Draw(t, "ws")
 	}
 	return o
 }
